@@ -10,9 +10,15 @@ import YaegiVerif.Generated.C10
   frame (`Binding`) and a call counter (so that a use that silently does nothing is visible in later results).
   `runHist F` is the interpreter as it is (facts `F`), `runSpec` what Go and the property demand.
 
-  State after the repairs of round 2 (4a41b28 F10, 2667a11 import): the full-strength statement holds for the
-  extracted facts — every history, every kind of definition, every way of calling. What it was false for is kept
-  as statements about `Expected.C10.oldFacts`, the record the extractor produces on the tree before the repairs.
+  State after the repairs of round 2 (4a41b28 F10, 2667a11 import, ba001d8): for the extracted facts EVERY
+  definition gets a live frame after EVERY history (`every_definition_alive`: the run-id part of the property at
+  full strength, F10 repaired), and every use returns what the specification returns for every history, every kind
+  of definition and every way of calling — except one situation found while the harness was extended (F10-3): a
+  function value called directly by the host after a cancelled evaluation, before any other evaluation, gets the
+  CLOSED done channel the cancelled evaluation left in the root frame, so a body that blocks on a channel is cut
+  short. `definitions_survive_partial` has that single clause in its domain; without channel operations in the
+  bodies the statement is full (`definitions_survive_without_channels`). What the statement was false for before the
+  repairs is kept as statements about `Expected.C10.oldFacts`, the record the extractor produces on the old tree.
 -/
 namespace YaegiVerif.Props.C10
 open YaegiVerif YaegiVerif.RunId YaegiVerif.Proofs.C09 YaegiVerif.Proofs.C10
@@ -55,7 +61,7 @@ theorem function_value_called_under_root_id (h : HSt) (d : Def) (s : Site) (c : 
 theorem root_in_step_between_events (evs : List Ev) :
     (runHist Generated.C10.facts HSt.init evs).rootId = (runHist Generated.C10.facts HSt.init evs).id := by
   rw [runidfacts_tie]
-  exact synced_run evs HSt.init rfl
+  exact (synced_run evs HSt.init ⟨rfl, rfl⟩).1
 
 /-- **Every definition is alive after every history**: a use — an `Eval` of a call or a direct call by the host —
     of ANY definition made so far (named function, method, closure, method value bound at top level or inside a
@@ -67,68 +73,103 @@ theorem every_definition_alive (evs : List Ev) (d : Def) (hd : d ∈ (runHist Ge
   revert hd
   rw [runidfacts_tie]
   intro hd
-  have hs := synced_run evs HSt.init rfl
+  have hs := (synced_run evs HSt.init ⟨rfl, rfl⟩).1
   have hf := fvBound_run Expected.C10.facts evs HSt.init (fun d hd => by cases hd)
   refine ⟨synced_alive _ d hs (hf d hd), ?_⟩
-  rw [refresh_synced _ hs]
-  exact synced_alive _ d hs (hf d hd)
+  exact synced_alive _ d (by simp [HSt.refresh, fact_ref]) (hf d hd)
 
-/-! ### the property, at full strength -/
+/-! ### the property -/
 
 /-- the full-strength statement: every history, every definition kind, every way of calling -/
 def C10_full_statement (F : RunIdFacts) : Prop :=
   ∀ evs : List Ev, (runHist F HSt.init evs).results = (runSpec HSt.init evs).results
 
-/-- **Definitions survive** (full strength). For EVERY history — definitions of every kind (named functions,
-    methods, closures stored in variables, method values bound at top level or inside functions, function values
-    handed to the host, functions of packages imported after cancellations), uses through `Eval` and direct calls
-    by the host, cancelled evaluations of every kind anywhere and in any number —: every use returns exactly what
-    it returns when the cancelled evaluations are left out (`runSpec` ignores them), state carried between calls
-    included. -/
-theorem definitions_survive : C10_full_statement Generated.C10.facts := by
-  intro evs
+/-- the domain of the partial theorem (decidable; `okEv` looks at the state each event meets): the host does not call
+    a function value whose body blocks on a channel while the root frame holds a closed done channel — by
+    `root_done_after_event`: after a cancelled evaluation and before the next evaluation (F10-3) -/
+def Dom (evs : List Ev) : Bool := DomFrom Generated.C10.facts HSt.init evs
+
+/-- when the root frame holds a closed done channel: exactly after a cancelled evaluation whose `Execute` had started
+    when `stop()` ran, until the next evaluation (a direct call by the host changes nothing) -/
+theorem root_done_after_event (evs : List Ev) (ev : Ev) :
+    (runHist Generated.C10.facts HSt.init (evs ++ [ev])).rdone =
+      match ev with
+      | .define _ _ _ _ => false
+      | .use _ .host _ => (runHist Generated.C10.facts HSt.init evs).rdone
+      | .use _ _ _ => false
+      | .cancelled .expiredBefore => false
+      | .cancelled _ => true := by
+  have happ : runHist Generated.C10.facts HSt.init (evs ++ [ev]) =
+      stepH Generated.C10.facts (runHist Generated.C10.facts HSt.init evs) ev := by
+    simp [runHist, List.foldl_append]
+  rw [happ, runidfacts_tie]
+  exact rdone_after _ ev (synced_run evs HSt.init ⟨rfl, rfl⟩)
+
+/-- **Definitions survive** (partial: `Dom`, the F10-3 clause only). For every history — definitions of every kind
+    (named functions, methods, closures stored in variables, method values bound at top level or inside functions,
+    function values handed to the host, functions of packages imported after cancellations), with or without
+    channel operations in their bodies, made at any point; uses through `Eval`, `EvalWithContext` and direct calls
+    by the host; cancelled evaluations of every kind anywhere and in any number — in which the host does not call a
+    channel-using function value right after a cancelled evaluation: every use returns exactly what it returns
+    when the cancelled evaluations are left out (`runSpec` ignores them), state carried between calls included. -/
+theorem definitions_survive_partial (evs : List Ev) (hd : Dom evs = true) :
+    (runHist Generated.C10.facts HSt.init evs).results = (runSpec HSt.init evs).results := by
+  revert hd
+  unfold Dom
   rw [runidfacts_tie]
-  have := full_run evs HSt.init rfl (fun d hd => by cases hd)
+  intro hd
+  have := full_run evs HSt.init ⟨rfl, rfl⟩ (fun d hd => by cases hd) hd
   have h2 : (erase (runHist Expected.C10.facts HSt.init evs)).results = (runSpec (erase HSt.init) evs).results := by rw [this]
   simpa [erase, HSt.init] using h2
 
-/-- a named function (or a method) after any history, in the form the partial theorem of round 1 had (corollary) -/
-theorem named_function_survives (evs : List Ev) (i x : Nat) (d : Def)
-    (hd : (runHist Generated.C10.facts HSt.init evs).defs[i]? = some d) :
-    (runHist Generated.C10.facts HSt.init (evs ++ [.use i .eval x])).results =
-      value d x :: (runHist Generated.C10.facts HSt.init evs).results := by
-  have ha := (every_definition_alive evs d (List.mem_of_getElem? hd)).2
-  have happ : runHist Generated.C10.facts HSt.init (evs ++ [.use i .eval x]) =
-      stepH Generated.C10.facts (runHist Generated.C10.facts HSt.init evs) (.use i .eval x) := by
-    simp [runHist, List.foldl_append]
-  rw [happ, stepH_use_eval]
-  have hd' : ((runHist Generated.C10.facts HSt.init evs).refresh Generated.C10.facts).defs[i]? = some d := by
-    simpa [HSt.refresh] using hd
-  show (useBody Generated.C10.facts ((runHist Generated.C10.facts HSt.init evs).refresh Generated.C10.facts) i x).results = _
-  unfold useBody
-  rw [hd']
-  simp only [ha, if_true]
-  rfl
+/-- **Definitions survive, full strength for bodies without channel operations**: every history whose definitions
+    do not block on channels — closures, method values and function values handed to the host included, called from
+    the script and by the host, after any number of cancelled evaluations. This is the statement the round-1 theorem
+    had to restrict to named functions, methods and top-level method values used through `Eval` (F10). -/
+theorem definitions_survive_without_channels (evs : List Ev) (hn : noBlk evs = true) :
+    (runHist Generated.C10.facts HSt.init evs).results = (runSpec HSt.init evs).results :=
+  definitions_survive_partial evs (noBlk_dom _ evs HSt.init hn (fun d hd => by cases hd))
 
 /-- non-vacuity: a history with every kind of definition, used through `Eval` and by the host, with four cancelled
     evaluations of every kind in between, and a package imported after two of them -/
 def exHist : List Ev :=
-  [.define .named 3 1, .define .closure 5 2, .define .hostWrapper 2 5, .define .methodValueInFunc 7 1,
-   .use 1 .eval 4, .use 2 .host 1, .cancelled .busyLoop, .use 1 .eval 4, .use 1 .host 4, .use 2 .host 1, .use 3 .eval 1,
-   .cancelled .expiredBefore, .define .imported 2 9, .use 4 .eval 3, .cancelled .blockedChan, .cancelled .expiredAfter,
-   .use 0 .eval 0, .use 3 .eval 1, .use 1 .host 0, .use 4 .eval 1]
-example : (runHist Generated.C10.facts HSt.init exHist).results = (runSpec HSt.init exHist).results ∧
-    (runHist Generated.C10.facts HSt.init exHist).results = [13, 6, 10, 2, 16, 9, 9, 25, 24, 8, 23] ∧
+  [.define .named 3 1 true, .define .closure 5 2 false, .define .hostWrapper 2 5 true, .define .methodValueInFunc 7 1 false,
+   .use 1 .eval 4, .use 2 .host 1, .cancelled .busyLoop, .use 1 .evalCtx 4, .use 1 .host 4, .use 2 .host 1, .use 3 .eval 1,
+   .cancelled .expiredBefore, .define .imported 2 9 false, .use 4 .eval 3, .cancelled .blockedChan, .cancelled .expiredAfter,
+   .use 1 .host 0, .use 0 .eval 0, .use 3 .eval 1, .use 2 .host 1, .use 4 .evalCtx 1]
+example : Dom exHist = true ∧ (runHist Generated.C10.facts HSt.init exHist).results = (runSpec HSt.init exHist).results ∧
+    (runHist Generated.C10.facts HSt.init exHist).results = [13, 10, 10, 2, 6, 16, 9, 9, 25, 24, 8, 23] ∧
     (runHist Generated.C10.facts HSt.init exHist).id = 4 := by decide
 
 /-- F10 repaired (4a41b28), the replay of the finding: a closure and a function value held by the host, used before
     and after a cancelled evaluation, from the script and from the host -/
 def f10Hist : List Ev :=
-  [.define .closure 5 2, .define .hostWrapper 3 1, .use 0 .eval 4, .use 1 .host 4, .cancelled .busyLoop,
+  [.define .closure 5 2 false, .define .hostWrapper 3 1 false, .use 0 .eval 4, .use 1 .host 4, .cancelled .busyLoop,
    .use 1 .host 4, .use 0 .eval 4, .use 1 .host 4]
 theorem closure_and_wrapper_survive_cancel :
     (runHist Generated.C10.facts HSt.init f10Hist).results = [16, 24, 15, 14, 23] ∧
     (runSpec HSt.init f10Hist).results = [16, 24, 15, 14, 23] := by decide
+
+/-! ### what `Dom` excludes (F10-3) -/
+
+/-- F10-3: a function held by the host whose body receives its value over a channel, called by the host right after a
+    cancelled evaluation: the receive is "cancelled" at once (the root frame still holds the done channel `stop()`
+    closed): it returns the zero value, twice, though its body has run up to the receive (the call counter moves);
+    after any evaluation it works again. Go returns 14, 15, 16, 17. -/
+theorem host_call_chanop_after_cancel_witness :
+    let evs := [Ev.define .hostWrapper 3 1 true, .use 0 .host 4, .cancelled .busyLoop, .use 0 .host 4, .use 0 .host 4,
+                .use 0 .eval 4, .use 0 .host 4]
+    Dom evs = false ∧
+    (runHist Generated.C10.facts HSt.init evs).results = [18, 17, 0, 0, 14] ∧
+    (runSpec HSt.init evs).results = [18, 17, 16, 15, 14] := by
+  decide
+
+/-- the full-strength statement is false for the interpreter as it is (F10-3) -/
+theorem full_statement_false : ¬ C10_full_statement Generated.C10.facts := by
+  intro h
+  have := h [Ev.define .hostWrapper 3 1 true, .cancelled .busyLoop, .use 0 .host 4]
+  revert this
+  decide
 
 /-! ### what remains: the window between the return of the `…WithContext` call and the return of its `Execute` -/
 
@@ -143,16 +184,14 @@ theorem host_call_in_window_fails (evs : List Ev) (d : Def)
   revert hd
   rw [runidfacts_tie]
   intro hd
-  have hs := synced_run evs HSt.init rfl
   have hf := fvBound_run Expected.C10.facts evs HSt.init (fun d hd => by cases hd)
-  unfold Synced at hs
   cases hb : d.binding with
-  | callee => simp [alive, useFrameId, hb, guardOk, newId, HSt.stoppedNotLeft, HSt.refresh, Expected.C10.facts, Expected.C09.facts]
-  | root => simp [alive, useFrameId, hb, guardOk, newId, HSt.stoppedNotLeft, HSt.refresh, Expected.C10.facts, Expected.C09.facts]
+  | callee => simp [alive, useFrameId, hb, guardOk, newId, HSt.stoppedNotLeft, HSt.enter, HSt.stop, HSt.refresh, Expected.C10.facts, Expected.C09.facts]
+  | root => simp [alive, useFrameId, hb, guardOk, newId, HSt.stoppedNotLeft, HSt.enter, HSt.stop, HSt.refresh, Expected.C10.facts, Expected.C09.facts]
   | fixed s c =>
     cases s with
     | call => exact absurd hb (hf d hd c)
-    | _ => simp [alive, useFrameId, hb, guardOk, newId, RunIdFacts.site, HSt.stoppedNotLeft, HSt.refresh, Expected.C10.facts, Expected.C09.facts]
+    | _ => simp [alive, useFrameId, hb, guardOk, newId, RunIdFacts.site, HSt.stoppedNotLeft, HSt.enter, HSt.stop, HSt.refresh, Expected.C10.facts, Expected.C09.facts]
 
 /-- histories without a held evaluation are the histories of `definitions_survive` -/
 theorem runX_of_events (F : RunIdFacts) (evs : List Ev) : runX F (evs.map .ev) = runHist F HSt.init evs := by
@@ -166,9 +205,19 @@ theorem runX_of_events (F : RunIdFacts) (evs : List Ev) : runX F (evs.map .ev) =
     it returns the zero value (and its state does not move); once that `Execute` has returned the same call works.
     Go returns 14, 15, 16. -/
 theorem host_call_before_execute_returned_witness :
-    let evs := [XEv.ev (.define .hostWrapper 3 1), .ev (.use 0 .host 4), .hold, .ev (.use 0 .host 4), .ev (.use 0 .host 4)]
+    let evs := [XEv.ev (.define .hostWrapper 3 1 false), .ev (.use 0 .host 4), .hold, .ev (.use 0 .host 4), .ev (.use 0 .host 4)]
     (runX Generated.C10.facts evs).results = [15, 0, 14] ∧
     (runSpec HSt.init (XEv.plain evs)).results = [16, 15, 14] := by
+  decide
+
+/-- F10-1, second form: the context expires at the moment the evaluation finishes — `Execute` has returned when the
+    watcher runs `stop()`; the call returns the context's error and the root frame stays stale until the next
+    evaluation: direct host calls return the zero value until then. Go returns 14, 15, 16, 17. -/
+theorem host_call_after_late_stop_witness :
+    let evs := [XEv.ev (.define .hostWrapper 3 1 false), .ev (.use 0 .host 4), .lateStop, .ev (.use 0 .host 4), .ev (.use 0 .host 4),
+                .ev (.use 0 .eval 4), .ev (.use 0 .host 4)]
+    (runX Generated.C10.facts evs).results = [16, 15, 0, 0, 14] ∧
+    (runSpec HSt.init (XEv.plain evs)).results = [18, 17, 16, 15, 14] := by
   decide
 
 /-! ### before the repairs (statements about the old facts) -/
@@ -177,7 +226,7 @@ theorem host_call_before_execute_returned_witness :
     cancelled evaluation and returns the zero value afterwards, again and again (its call counter does not move
     either); Go returns 23, 24, 25 -/
 theorem closure_dead_after_cancel_witness_old :
-    let evs := [Ev.define .closure 5 2, .use 0 .eval 4, .cancelled .busyLoop, .use 0 .eval 4, .define .named 1 1,
+    let evs := [Ev.define .closure 5 2 false, .use 0 .eval 4, .cancelled .busyLoop, .use 0 .eval 4, .define .named 1 1 false,
                 .use 1 .eval 1, .use 0 .eval 4, .use 0 .host 4]
     (runHist Expected.C10.oldFacts HSt.init evs).results = [0, 0, 3, 0, 23] ∧
     (runSpec HSt.init evs).results = [26, 25, 3, 24, 23] ∧
@@ -187,7 +236,7 @@ theorem closure_dead_after_cancel_witness_old :
 /-- F10, exported wrappers, old facts: a function value handed to the host returns the zero value when called
     directly after the cancelled evaluation, and works again once any later evaluation has been executed -/
 theorem wrapper_dead_until_next_execute_witness_old :
-    let evs := [Ev.define .hostWrapper 3 1, .define .named 1 1, .use 0 .host 4, .cancelled .blockedChan, .use 0 .host 4,
+    let evs := [Ev.define .hostWrapper 3 1 false, .define .named 1 1 false, .use 0 .host 4, .cancelled .blockedChan, .use 0 .host 4,
                 .use 0 .host 4, .use 1 .eval 1, .use 0 .host 4]
     (runHist Expected.C10.oldFacts HSt.init evs).results = [15, 3, 0, 0, 14] ∧
     (runSpec HSt.init evs).results = [17, 3, 16, 15, 14] ∧
@@ -197,7 +246,7 @@ theorem wrapper_dead_until_next_execute_witness_old :
 /-- 2667a11, old facts: the variables of a package imported right after a cancelled evaluation are not initialised
     (its function computes `x*a + 0 + calls` instead of `x*a + b + calls`) -/
 theorem import_after_cancel_witness_old :
-    let evs := [Ev.define .named 1 1, .cancelled .busyLoop, .define .imported 2 9, .use 1 .eval 3, .use 0 .eval 1]
+    let evs := [Ev.define .named 1 1 false, .cancelled .busyLoop, .define .imported 2 9 false, .use 1 .eval 3, .use 0 .eval 1]
     (runHist Expected.C10.oldFacts HSt.init evs).results = [3, 7] ∧
     (runSpec HSt.init evs).results = [3, 16] ∧
     (runHist Generated.C10.facts HSt.init evs).results = [3, 16] := by
@@ -206,7 +255,7 @@ theorem import_after_cancel_witness_old :
 /-- the full-strength statement was false for the interpreter before the repairs -/
 theorem full_statement_false_old : ¬ C10_full_statement Expected.C10.oldFacts := by
   intro h
-  have := h [Ev.define .closure 5 2, .cancelled .busyLoop, .use 0 .eval 4]
+  have := h [Ev.define .closure 5 2 false, .cancelled .busyLoop, .use 0 .eval 4]
   revert this
   decide
 
